@@ -213,6 +213,12 @@ pub enum Walk {
     Back,
     AltFB,
     AltBF,
+    /// step j is `nth(j % 3)` (skips 0, 1, 2, 0, … items before the one returned)
+    NthF,
+    /// step j is `nth_back(j % 3)`
+    NthB,
+    /// step 0 is `nth(7)` (past the end of every explored collection), the following steps `next()`
+    NthOut,
 }
 #[derive(Clone, Copy, PartialEq, Eq, Debug, Hash, PartialOrd, Ord)]
 pub enum End {
@@ -220,7 +226,7 @@ pub enum End {
     Count,
     Forget,
 }
-/// `k` steps of `walk` (next / next_back / alternating), observing len() and size_hint()
+/// `k` steps of `walk` (next / next_back / alternating / nth / nth_back), observing len() and size_hint()
 /// before every step and after the last, then `end` (drop, count(), mem::forget).
 #[derive(Clone, Copy, PartialEq, Eq, Debug, Hash, PartialOrd, Ord)]
 pub struct Script {
@@ -238,6 +244,9 @@ impl Script {
             "Back" => Walk::Back,
             "AltFB" => Walk::AltFB,
             "AltBF" => Walk::AltBF,
+            "NthF" => Walk::NthF,
+            "NthB" => Walk::NthB,
+            "NthOut" => Walk::NthOut,
             _ => return None,
         };
         let end = match v["end"].as_str()? {
@@ -263,6 +272,15 @@ impl Script {
             for k in 2..=n + 2 {
                 v.push(Script { walk: Walk::AltFB, k: k as u8, end });
                 v.push(Script { walk: Walk::AltBF, k: k as u8, end });
+            }
+            // the skipping entry points (Iterator::nth / DoubleEndedIterator::nth_back; skip and step_by are
+            // built on them), in range and past the end, each followed by a further observation
+            for k in 1..=n + 1 {
+                v.push(Script { walk: Walk::NthF, k: k as u8, end });
+                v.push(Script { walk: Walk::NthB, k: k as u8, end });
+            }
+            for k in 1..=2 {
+                v.push(Script { walk: Walk::NthOut, k: k as u8, end });
             }
         }
         v
@@ -305,13 +323,15 @@ where
         tr.push(Tok::Len(it.len()));
         let h = it.size_hint();
         tr.push(Tok::Hint(h.0, h.1));
-        let front = match sc.walk {
-            Walk::Front => true,
-            Walk::Back => false,
-            Walk::AltFB => j % 2 == 0,
-            Walk::AltBF => j % 2 == 1,
+        let item = match sc.walk {
+            Walk::Front => it.next(),
+            Walk::Back => it.next_back(),
+            Walk::AltFB => if j % 2 == 0 { it.next() } else { it.next_back() },
+            Walk::AltBF => if j % 2 == 1 { it.next() } else { it.next_back() },
+            Walk::NthF => it.nth(j % 3),
+            Walk::NthB => it.nth_back(j % 3),
+            Walk::NthOut => if j == 0 { it.nth(7) } else { it.next() },
         };
-        let item = if front { it.next() } else { it.next_back() };
         tr.push(Tok::Item(item.map(|x| f(x, j))));
     }
     tr.push(Tok::Len(it.len()));
